@@ -7,6 +7,7 @@ global size_of usize == 8;
 //@include prelude/float.rs
 //@include prelude/rng.rs
 //@include prelude/tensor.rs
+//@include prelude/progress.rs
 
 pub mod unit_nuts {
     use vstd::prelude::*;
@@ -14,6 +15,7 @@ pub mod unit_nuts {
     use super::fl::*;
     use super::rng::*;
     use super::tn::*;
+    use super::pg::*;
     broadcast use super::fl::fl_axioms, super::rng::rng_axioms, super::tn::tn_axioms, super::tn::ax_tdim2;
 
     // R-float: `T: Float` is the abstract float
@@ -461,6 +463,15 @@ pub mod unit_nuts {
             && forall |k: int| 0 <= k < n_collect ==> (#[trigger] out[k]) == v1(h[n_discard + k].position)
     }
 
+    /// progress mode: exactly n_collect + n_discard transitions; row k is the position after n_discard + k + 1 of them
+    /// (run's trajectory shifted by one draw: run keeps the initial position as its first row)
+    pub open spec fn nuts_progress_post<B: AutodiffBackend, G: GradientTarget<B>>(pre: NUTSChain<Fl, B, G>, post: NUTSChain<Fl, B, G>, out: M, n_collect: int, n_discard: int) -> bool {
+        exists |h: Seq<NUTSChain<Fl, B, G>>| #![trigger nuts_hist_ok::<B, G>(h, h[0], post, n_collect + n_discard)]
+            nuts_hist_ok::<B, G>(h, h[0], post, n_collect + n_discard) && init_rel::<B, G>(pre, h[0], n_collect, n_discard)
+            && out.len() == n_collect
+            && forall |k: int| 0 <= k < n_collect ==> (#[trigger] out[k]) == v1(h[n_discard + k + 1].position)
+    }
+
     impl<B: AutodiffBackend, GTarget: GradientTarget<B>> NUTSChain<Fl, B, GTarget> {
         pub fn new(target: GTarget, initial_position: Vec<T>, target_accept_p: T) -> (r: Self)
             ensures
@@ -501,6 +512,41 @@ pub mod unit_nuts {
         //@|     n_discard >= 1 ==> v2(sample)[0] == v1(c0.position) || n_discard <= m - 1,
         //@anchor p scope=loop:1 pos=after match="^self \\. step \\(\\)"
         //@| proof { h = h.push(*self); }
+        //@end
+
+        #[verifier::exec_allows_no_decreases_clause]
+        fn run_progress(&mut self, n_collect: usize, n_discard: usize, tx: Sender<ChainStats>) -> (res: Result<Tensor<B, 2>, BoxDynError>)
+            requires n_collect >= 1, old(self).m + old(self).t_0 + n_collect + n_discard < usize::MAX
+            ensures
+                res is Ok,                                                                                                             // [C10.nuts_chain_run_progress_succeeds_whatever_the_channel_does]
+                nuts_progress_post::<B, GTarget>(*old(self), *final(self), v2(res->Ok_0), n_collect as int, n_discard as int),         // [C10.nuts_chain_run_progress_is_runs_trajectory_shifted_by_one_draw]
+                tdim2(res->Ok_0) == (n_collect as int, v1(old(self).position).len() as int),
+        //@body id=nuts_chain_run_progress file=src/nuts.rs impl_self=NUTSChain name=run_progress props=C10
+        //@sig fn run_progress (& mut self , n_collect : usize , n_discard : usize , tx : Sender < ChainStats > ,) -> Result < Tensor < B , 2 > , Box < dyn Error > >
+        //@rules R-f64 R-fmt R-boolor R-dynerr
+        //@closure 1 params="x: T" ret="(r: Fl)"
+        //@closure 2 params="x: T" ret="(r: Fl)"
+        //@closure 3 params="e: BoxDynError" ret="(r: String)"
+        //@anchor h0 scope=fn pos=after match="^let \\(dim , mut sample\\)"
+        //@| let ghost c0 = *self;
+        //@| let ghost mut h: Seq<NUTSChain<Fl, B, GTarget>> = seq![*self];
+        //@loop 1 iter=it
+        //@| invariant
+        //@|     it.iter.end == total, total == n_discard + n_collect, n_collect >= 1, dim == v1(c0.position).len(), tracker_np(tracker) == dim,
+        //@|     self.t_0 == c0.t_0, self.m == c0.m + i, c0.m + c0.t_0 + n_collect + n_discard < usize::MAX, v1(self.position).len() == dim,
+        //@|     nuts_hist_ok::<B, GTarget>(h, c0, *self, i as int),
+        //@|     tdim2(sample) == (n_collect as int, dim as int),
+        //@|     forall |k: int| 0 <= k < n_collect && n_discard + k < i ==> (#[trigger] v2(sample)[k]) == v1(h[n_discard + k + 1].position),
+        //@anchor p scope=loop:1 pos=after match="^self \\. step \\(\\)"
+        //@| proof { h = h.push(*self); }
+        //@anchor fin scope=fn pos=before match="^Ok \\(sample\\)"
+        //@| proof {
+        //@|     assert(h[0] == c0);
+        //@|     assert(nuts_hist_ok::<B, GTarget>(h, h[0], *self, n_collect + n_discard));
+        //@|     assert(init_rel::<B, GTarget>(*old(self), h[0], n_collect as int, n_discard as int));
+        //@|     assert(v2(sample).len() == n_collect);
+        //@|     assert forall |k: int| 0 <= k < n_collect implies (#[trigger] v2(sample)[k]) == v1(h[n_discard + k + 1].position) by {}
+        //@| }
         //@end
 
         #[verifier::exec_allows_no_decreases_clause]
